@@ -10,3 +10,5 @@ def check(ctx: Ctx) -> None:
     CT.r_buffer(ctx, "R18.4")
     # "a command that waits is answered when the wait is over": the session awaits only coroutine functions
     CT.r_async_declared(ctx, "R18.5")
+    # the containment argument (R18.3) is made for argparse's default reading: errors go through error(), -h through exit(), no files are read
+    CT.r_parser_config(ctx, "R18.6")
